@@ -185,6 +185,9 @@ func Run(kind string, bios []obiseq.BioSequenceSlice, perm []int, sink io.WriteC
 	} else {
 		opts = append(opts, obiformats.OptionDontCloseFile())
 	}
+	if SkipEmpty {
+		opts = append(opts, obiformats.OptionsSkipEmptySequence(true))
+	}
 	var out obiiter.IBioSequence
 	var err error
 	switch kind {
@@ -214,6 +217,10 @@ func Run(kind string, bios []obiseq.BioSequenceSlice, perm []int, sink io.WriteC
 	return nil
 }
 
+// SkipEmpty: the writers are run with the skip-empty option (--skip-empty): records without
+// sequence are left out, a batch made only of such records formats to nothing.
+var SkipEmpty bool
+
 // Expected returns the bytes the FASTA/FASTQ writers must produce: the
 // in-order concatenation of the package's own batch formatting.
 func Expected(kind string, bios []obiseq.BioSequenceSlice) []byte {
@@ -222,9 +229,9 @@ func Expected(kind string, bios []obiseq.BioSequenceSlice) []byte {
 		batch := obiiter.MakeBioSequenceBatch("src", k, sl)
 		switch kind {
 		case "fasta":
-			b.Write(obiformats.FormatFastaBatch(batch, obiformats.FormatFastSeqJsonHeader, false).Bytes())
+			b.Write(obiformats.FormatFastaBatch(batch, obiformats.FormatFastSeqJsonHeader, SkipEmpty).Bytes())
 		case "fastq":
-			b.Write(obiformats.FormatFastqBatch(batch, obiformats.FormatFastSeqJsonHeader, false).Bytes())
+			b.Write(obiformats.FormatFastqBatch(batch, obiformats.FormatFastSeqJsonHeader, SkipEmpty).Bytes())
 		}
 	}
 	return b.Bytes()
